@@ -474,7 +474,7 @@ func TestCorpusC11(t *testing.T) {
 var propC11Sim = &simProp{
 	ID: "C11",
 	Profile: sim.Profile{
-		Name: "C11", Voters: [2]int{2, 5}, Phases: [2]int{2, 7}, Patterns: []string{"P7", "P7", "P7", "P7", "free", "P6", "P11", "P1", "stopstart", "P12", "P3", "P8", "P26"},
+		Name: "C11", Voters: [2]int{2, 5}, Phases: [2]int{2, 7}, Patterns: []string{"P7", "P7", "P7", "P7", "free", "P6", "P11", "P1", "stopstart", "P12", "P3", "P8", "P26", "P33", "P33"},
 		Writes: true, Crashes: true, Stops: true, Snapshots: "both", FSMDelays: true, BigPayload: true, EpilogueET: 10, Prologue: true,
 	},
 	Owns: []string{"C11"},
